@@ -31,9 +31,21 @@ def extract_regex():
     tree = ast.parse(src)
     for node in ast.walk(tree):
         if isinstance(node, ast.FunctionDef) and node.name == "retrieve":
+            # local names the pattern is built from (e.g. ``tag = ...``) are folded in source order
+            env = {"ST_SAGEMAKER_METRIC_TAG": K.ST_SAGEMAKER_METRIC_TAG, "re": re}
+            pattern = None
             for st in ast.walk(node):
-                if isinstance(st, ast.Assign) and getattr(st.targets[0], "id", None) == "regex":
-                    pattern = eval(compile(ast.Expression(st.value), "<regex>", "eval"), {"ST_SAGEMAKER_METRIC_TAG": K.ST_SAGEMAKER_METRIC_TAG})
+                if isinstance(st, ast.Assign) and len(st.targets) == 1 and isinstance(st.targets[0], ast.Name):
+                    try:
+                        val = eval(compile(ast.Expression(st.value), "<regex>", "eval"), dict(env))
+                    except Exception:
+                        continue
+                    if st.targets[0].id == "regex":
+                        pattern = val
+                        break
+                    if isinstance(val, (str, int)):
+                        env[st.targets[0].id] = val
+            if pattern is not None:
                     flags = 0
                     for call in ast.walk(node):
                         if isinstance(call, ast.Call) and getattr(call.func, "attr", None) == "findall":
@@ -45,17 +57,25 @@ def extract_regex():
 
 
 def parse_pattern(pattern, flags=0):
-    """supported shapes:  [^] <escaped literal prefix> ( \\{ .* \\} )   with flags 0 or re.MULTILINE
-    -> (literal prefix text, anchored at line start?)"""
+    """supported shapes:  [^] <escaped literal prefix> ( \\{ BODY \\} )   with flags 0 or re.MULTILINE, where BODY is the greedy
+    ``.*`` or the tempered ``(?:(?!<escaped literal>).)*`` (no position of the body may start that literal)
+    -> (literal prefix text, anchored at line start?, forbidden literal or None)"""
     if flags & ~re.MULTILINE:
         raise RuntimeError("unsupported regex flags: %r" % flags)
     anchored = pattern.startswith("^")
     body = pattern[1:] if anchored else pattern
-    m = re.fullmatch(r"((?:\\.|[^\\()\[\]{}.*+?|^$])*)\(\\\{\.\*\\\}\)", body)
+    litre = r"((?:\\.|[^\\()\[\]{}.*+?|^$])*)"
+    m = re.fullmatch(litre + r"\(\\\{\.\*\\\}\)", body)
+    forb = None
     if not m:
-        raise RuntimeError("unsupported regex shape: %r" % pattern)
+        m = re.fullmatch(litre + r"\(\\\{\(\?:\(\?!" + litre + r"\)\.\)\*\\\}\)", body)
+        if not m:
+            raise RuntimeError("unsupported regex shape: %r" % pattern)
+        forb = re.sub(r"\\(.)", r"\1", m.group(2))
+        if not forb or "}" in forb:
+            raise RuntimeError("unsupported regex shape (lookahead literal): %r" % pattern)
     lit = re.sub(r"\\(.)", r"\1", m.group(1))
-    return lit, anchored
+    return lit, anchored, forb
 
 
 def smt_str(s):
@@ -87,10 +107,16 @@ def model_values(txt):
     return vals
 
 
+JSON_FAMILY = """(declare-const js String)
+(assert (= body (str.++ "\\u{22}k\\u{22}: \\u{22}" js "\\u{22}")))
+(assert (str.in_re js (re.* (re.union (re.range " " "!") (re.range "#" "[") (re.range "]" "~")))))
+"""
+
+
 def framing(ob_d):
     from syne_tune.report import retrieve
     pattern, tag, flags = extract_regex()
-    lit, anchored = parse_pattern(pattern, flags)              # e.g. "[tune-metric]: "
+    lit, anchored, forb = parse_pattern(pattern, flags)        # e.g. "[tune-metric]: "
     start = lit + "{"
     L = len(lit)
     head = """(set-logic QF_SLIA)
@@ -105,14 +131,21 @@ def framing(ob_d):
 (assert (not (str.contains pre "\\u{a}")))
 (assert (not (str.contains body "\\u{a}")))
 (assert (not (str.contains suf "\\u{a}")))
-; greedy .* up to the LAST closing brace of the line
-(assert (= line (str.++ a "}" b)))
-(assert (not (str.contains b "}")))
 (define-fun p0 () Int (str.indexof line %s 0))
 ; an anchored pattern only matches where a line starts (the text before the tag is on the same line)
 (define-fun p () Int %s)
-(define-fun cap () String (ite (>= p 0) (str.substr line (+ p %d) (- (+ (str.len a) 1) (+ p %d))) "<no match>"))
-""" % (smt_str(lit), smt_str(start), "(ite (= p0 0) 0 (- 1))" if anchored else "p0", L, L)
+; the body may extend up to q: the end of the line (greedy .*), or the first position after the opening brace at which the
+; literal of a negative lookahead starts (tempered dot)
+(define-fun q0 () Int %s)
+(define-fun q () Int (ite (< q0 0) (str.len line) q0))
+(define-fun region () String (str.substr line 0 q))
+; greedy: up to the LAST closing brace of the region
+(assert (or (and (not (str.contains region "}")) (= a "") (= b region))
+            (and (= region (str.++ a "}" b)) (not (str.contains b "}")))))
+(define-fun cap () String (ite (and (>= p 0) (str.contains region "}") (> (+ (str.len a) 1) (+ p %d 1)))
+                               (str.substr line (+ p %d) (- (+ (str.len a) 1) (+ p %d))) "<no match>"))
+""" % (smt_str(lit), smt_str(start), "(ite (= p0 0) 0 (- 1))" if anchored else "p0",
+       ("(ite (>= p 0) (str.indexof line %s (+ p %d 1)) (- 1))" % (smt_str(forb), L)) if forb else "(- 1)", L, L, L)
     queries = [
         ("main: protocol line (nothing after the payload, no forged tag before it) -> capture == payload", "unsat",
          '(assert (= suf ""))\n(assert (not (str.contains pre %s)))\n(assert (not (= cap payload)))\n' % smt_str(start)),
@@ -169,12 +202,48 @@ def framing(ob_d):
                 except Exception:
                     good_json = False
                 real = retrieve([line]) if good_json else None
-                if got != [payload]:
+                if got == [payload]:
+                    st["error"] = "cvc5 model does not reproduce with re.findall: %r" % (mv,)
+                elif good_json:
                     st["failed"] += 1
                     st["fails"].append(dict(code="C18.framing", msg="log line %r: the regex captures %r, the reported payload is %r (retrieve() -> %r)" % (line, got, payload, real),
                                             model=mv, reproduced=True))
                 else:
-                    st["error"] = "cvc5 model does not reproduce with re.findall: %r" % (mv,)
+                    # the lemma 'capture == payload for EVERY brace-delimited text' fails, but only shown for a text that is not
+                    # JSON, which no report can be: decide the property on a family of valid JSON payloads {"k": "<s>"}
+                    # (s: any printable ASCII without quote / backslash, so the tag text and braces are included)
+                    q2 = head + body + JSON_FAMILY + "(check-sat)\n(get-value (pre body suf))\n"
+                    txt2, dt2 = cvc5(q2, timeout=300)
+                    st["solver_queries"] += 1
+                    st["solver_s"] += dt2
+                    first2 = txt2.strip().splitlines()[0] if txt2.strip() else "no output"
+                    sample.update(lemma_fails_for_non_json=line, json_family_answer=first2, json_family_seconds=round(dt2, 2))
+                    if first2 == "unsat":
+                        first = "unsat"         # holds for every report of the family
+                    elif first2 == "sat":
+                        mv = model_values(txt2)
+                        line = mv.get("pre", "") + lit + "{" + mv.get("body", "") + "}" + mv.get("suf", "")
+                        payload = "{" + mv.get("body", "") + "}"
+                        try:
+                            want = [json.loads(payload)]
+                        except Exception:
+                            want = None
+                        try:
+                            real = retrieve([line])
+                        except Exception as e:   # noqa
+                            real = "raises %s" % type(e).__name__
+                        if want is None:
+                            st["error"] = "JSON family model is not JSON: %r" % (payload,)
+                        elif real != want:
+                            st["failed"] += 1
+                            st["fails"].append(dict(code="C18.framing", msg="log line %r: reported %r, retrieve() gives %r" % (line, want, real), model=mv, reproduced=True))
+                        else:
+                            st["error"] = "cvc5 model (JSON family) does not reproduce with retrieve(): %r" % (mv,)
+                    else:
+                        st["unknown"] += 1
+                        st["unknown_reasons"][name + " :: json family :: " + first2[:120]] = 1
+                        st["exhausted"] = False
+                        continue
         else:
             if expect == "sat":
                 st["error"] = "reachability twin unexpectedly unsat: %s" % name
